@@ -123,7 +123,8 @@ def mstep (w0 : W) (ln : Driver.Line) : Except String (W × List String) := do
   | '<', "peereof" :: _ => return (w0, [])
   | _, _ => pure ()
   let w := taus w0 64
-  let fin (w' : W) (l : Label) : Except String (W × List String) := pure (w', tagsOf w.st w'.st l ++ (if w.st != w0.st then tagsOf w0.st w.st .tau else []))
+  let fin (w' : W) (l : Label) : Except String (W × List String) :=
+    pure (w', tagsOf w.st w'.st l ++ (match w0.st.stack with | .resume .. :: _ | .again .. :: _ => tagsOf w0.st w.st .tau | _ => []))
   match ln.kind, ln.toks with
   | '<', "call" :: r =>
     match parseAction w.max r with
